@@ -4,6 +4,7 @@ mod c01;
 mod c05;
 mod c07;
 mod c15;
+mod c16;
 mod c02;
 mod c03;
 mod c04;
@@ -32,6 +33,7 @@ fn main() {
         "c05" => c05::main(&args),
         "c07" => c07::main(&args),
         "c15" => c15::main(&args),
+        "c16" => c16::main(&args),
         "c03" => c03::main(&args),
         "c04" => c04::main(&args),
         "c10" => c10::main(&args),
